@@ -265,8 +265,13 @@ class KernelOracle:
             q_fwd = _logmvn_quad(xs, a * x + d, binv)
             q_bwd = _logmvn_quad(x, a * xs + d, binv)
             self._mag = abs(ll) + abs(lls) + abs(lp) + abs(lps) + abs(q_fwd) + abs(q_bwd)
-            if fk is not None:
-                return None, xs, True
+            if fk is not None or not np.isfinite(lls):
+                if fk is None:
+                    self.ctx.hit("proposal_of_zero_likelihood")
+                return None, xs, True           # a proposal of zero likelihood is never accepted, whatever the current state
+            if not np.isfinite(ll):
+                self.ctx.hit("current_state_of_zero_likelihood")
+                return 0.0, xs, False           # from a state of zero likelihood every feasible proposal is accepted
             return min(0.0, lls + lps + q_bwd - ll - lp - q_fwd), xs, False
         raise core.Undecided("family")
 
